@@ -1,6 +1,6 @@
 """C06 - a failed update leaves the project untouched.
 
-Projects of 1..3 (quick) / 1..4 (thorough) files x 1..2 patterns, v2 and legacy version patterns, TOML and INI
+Projects of 1..3 (quick) / 1..5 (thorough) files x 1..2 patterns, v2 and legacy version patterns, TOML and INI
 config, EVERY permutation of the file entries (config file's own entry listed explicitly at every position, or
 implicit), and every single fault position: each (file, pattern) made non-matching, each file deleted, each file
 made undecodable, the new version rejected (lower --set-version, no-change bump).  0 faults (control) then
@@ -41,14 +41,14 @@ PATSETS = {1: (0,), 2: (0, 1), 3: (2,), 4: (2, 0)}
 
 
 def bounds(tier, seed):
-    return {"max_files": 3 if tier == "quick" else 4, "pattern_sets_per_file": {str(k): list(v) for k, v in PATSETS.items()}, "engines": sorted(ENGINES),
+    return {"max_files": 3 if tier == "quick" else 5, "pattern_sets_per_file": {str(k): list(v) for k, v in PATSETS.items()}, "engines": sorted(ENGINES),
             "config_formats": ["bumpver.toml", "setup.cfg"], "faults": ["none", "nomatch(file,pattern)", "missing(file)", "undecodable(file)",
             "lower-set-version", "no-change-bump"], "modes": ["update --dry", "update", "update + commit (fake git)"],
             "orders": "all permutations of the file entries, config entry explicit at every position or implicit"}
 
 
 def explore(tier, seed):
-    nmax = 3 if tier == "quick" else 4
+    nmax = 3 if tier == "quick" else 5
     chunks = []
     for engine in sorted(ENGINES):
         for fmt in ("bumpver.toml", "setup.cfg"):
@@ -58,6 +58,8 @@ def explore(tier, seed):
                         continue  # pattern sets per file: only sorted distributions (file order is permuted anyway)
                     if n >= 3 and len(set(npat)) > 2:
                         continue
+                    if n >= 5 and len(set(npat)) > 1:
+                        continue  # five files: the same pattern set in every file (all 120/720 orders x every fault)
                     for explicit in (False, True):
                         chunks.append((engine, fmt, n, npat, explicit))
     return pool.run_chunks(run_chunk, chunks)
